@@ -29,6 +29,7 @@ enum
     E_RANLUX24,
     E_RANLUX48,
     E_KNUTH_B,
+    E_SCRIPT14,     // scripted engine with the range 2^14 (five raw draws per double)
     E_COUNT
 };
 
@@ -116,6 +117,7 @@ struct Plan
     int eng = E_SCRIPT64;
     std::uint64_t eseed = 1;
     std::uint64_t dims = 1;
+    std::uint64_t mapd = 0;          // multi-channel: dimension of the coordinates (0: same as dims)
     std::uint64_t bins = 4;
     std::uint64_t chan = 2;
     std::vector<std::uint64_t> calls;
